@@ -18,6 +18,7 @@ mod udpcodec;
 mod udpconc;
 mod udpnet;
 mod udpstats;
+mod uringsend;
 mod validator;
 mod wsclient;
 mod wsjson;
@@ -126,6 +127,7 @@ fn main() {
         "wsnet" => wsnet::run(&mut out, seed, cases, &replay, arg(&args, "--burst", 40)),
         "wsstore" => wsstore::run(&mut out, seed, cases, maxops, &replay),
         "validator" => validator::run(&mut out, seed, cases, &replay),
+        "uringsend" => uringsend::run(&mut out, seed, cases, &replay),
         "acl" => acl::run(&mut out, seed, cases, &replay),
         "addr" => addr::run(&mut out, seed, cases, &replay),
         "timeunit" => timeunit::run(&mut out, seed, cases),
